@@ -108,7 +108,7 @@ _LOCALS_CACHE: dict[int, dict[str, str]] = {}
 
 def _local_map(fn_node) -> dict[str, str]:
     """{local name: $rank} for the locals of a function (parameters and globals excluded) - see sa/canon.py."""
-    m = _LOCALS_CACHE.get(id(fn_node))
+    m = getattr(fn_node, "_sa_local_map", None)  # cached on the node itself: ids are reused once a tree is freed
     if m is not None:
         return m
     params: set[str] = set()
@@ -140,7 +140,10 @@ def _local_map(fn_node) -> dict[str, str]:
         for i, x in enumerate(a.posonlyargs + a.args + a.kwonlyargs):
             if x.arg not in ("self", "cls"):
                 m[x.arg] = f"$p{i}"
-    _LOCALS_CACHE[id(fn_node)] = m
+    try:
+        fn_node._sa_local_map = m
+    except AttributeError:
+        pass
     return m
 
 
@@ -238,6 +241,7 @@ class Effects:
         self.n_iter = 0
         self._cfg_cache: dict[str, CFG] = {}
         self._tg_cache: dict[int, tuple] = {}
+        self._lazy: dict[str, dict] = {}  # function key -> {local name: (defining statement, events of the generator body)}
         self._prop_cache: dict[tuple, list] = {}
         self._late: dict[int, Event] = {}
 
@@ -459,6 +463,18 @@ class Effects:
                 for e in n.exprs():
                     self._emit(f, e, evs, loop=False)
             per_node[n.id] = evs
+        # lazily evaluated generators: their element events happen at every node that reads the generator
+        for name, (defn, inner) in self._lazy.get(f.key, {}).items():
+            if not inner:
+                continue
+            for n in cfg.nodes:
+                if n.ast is defn:
+                    continue
+                if any(isinstance(x, ast.Name) and x.id == name and isinstance(x.ctx, ast.Load) for e_ in n.exprs() for x in ast.walk(e_)
+                       if not isinstance(e_, (ast.FunctionDef, ast.AsyncFunctionDef, ast.ClassDef))):
+                    per_node[n.id] = per_node.get(n.id, []) + list(inner) + [
+                        Event(x.kind, x.node, x.desc, x.rejs, True, x.callee, x.tags, x.fields, x.qfields) for x in inner]
+        for evs in per_node.values():
             for ev in evs:
                 if ev.kind == "C":
                     for r in ev.rejs:
@@ -490,6 +506,23 @@ class Effects:
         if e is None:
             return
         if isinstance(e, ast.Assign):
+            if isinstance(e.value, ast.GeneratorExp) and len(e.targets) == 1 and isinstance(e.targets[0], ast.Name):
+                # a generator expression bound to a local is lazy: only its first iterable is evaluated here; the element
+                # expression (and with it every rejection it can raise) runs where the generator is consumed, one element at a
+                # time - in the loop that may already have written something for the elements before
+                g = e.value
+                self._emit(f, g.generators[0].iter, evs, loop)
+                inner: list[Event] = []
+                for gi, gen in enumerate(g.generators):
+                    if gi:
+                        self._emit(f, gen.iter, inner, True)
+                    for c in gen.ifs:
+                        self._emit(f, c, inner, True)
+                self._emit(f, g.elt, inner, True)
+                for ev in inner:
+                    ev.loop = True
+                self._lazy.setdefault(f.key, {})[e.targets[0].id] = (e, inner)
+                return
             self._emit(f, e.value, evs, loop)
             for t in e.targets:
                 self._store(f, t, e, evs, loop)
